@@ -18,19 +18,19 @@ from pyvc.types import NONE, Conc, TBool, TInt, TOpt, TRef, TSeq, TStr, Val, VTu
 P = ("C09", "C12")
 MOD = "django_components.util.template_parser"
 S, I, B = z3.StringSort(), z3.IntSort(), z3.BoolSort()
-TOKEN = "Token"
 POS = Tup(TInt, TInt, tag="Span", fields=["start", "end"])
-REG.heap_class(TOKEN, {"token_type": Int, "contents": Str, "position": POS, "lineno": Int})
+# django.template.base.Token BY VALUE: parse_template mutates a token through the loop variable and appends that same
+# object; the stock `tokens` list is never read again after an element was mutated (checked: syn#tokens_not_reread)
+TOKEN = Tup(TInt, TStr, POS, TInt, tag="Token", fields=["token_type", "contents", "position", "lineno"])
+REG.value_record(TOKEN)
 TT = {"TEXT": 0, "VAR": 1, "BLOCK": 2, "COMMENT": 3}
 for _n, _v in TT.items():
     REG.stub(("value", f"django.template.base.TokenType.{_n}"), mk_int(_v))
 
 
 def _new_token(run, args, kwargs, node):
-    ref = run.alloc(TOKEN)
-    for f, v in zip(("token_type", "contents", "position", "lineno"), args):
-        run.store_field(ref.t, TOKEN, f, v)
-    return ref
+    vals = [run.coerce(v, t).t for v, t in zip(args, TOKEN.items)]
+    return Val(TOKEN, TOKEN.mk(*vals))
 
 
 REG.stub("django.template.base.Token", _new_token)
@@ -166,7 +166,7 @@ def _inv_content(c):
 
 
 def _tok(c, f):
-    return z3.Select(c.field(TOKEN, f), c["result"].t)
+    return TOKEN.proj(c["result"].t, f)
 
 
 def _e(c):
@@ -174,14 +174,14 @@ def _e(c):
 
 
 REG.contract(
-    f"{MOD}:_detailed_tag_parser", prop=P, types={"text": Str, "lineno": Int, "start_index": Int}, result=Ref(TOKEN), entry=_dtp_entry,
+    f"{MOD}:_detailed_tag_parser", prop=P, types={"text": Str, "lineno": Int, "start_index": Int}, result=TOKEN, entry=_dtp_entry,
     locals={"result_content": Seq(Str)},
     requires=[lambda c: c["start_index"].t >= 0],
-    modifies=[f"{TOKEN}.token_type", f"{TOKEN}.contents", f"{TOKEN}.position", f"{TOKEN}.lineno"],
+    modifies=[],
     raises={"TemplateSyntaxError": None},
     loops={0: Loop(inv=[_inv_pos, _inv_state, _inv_no_end_before, qf(_inv_content)], variant="length - index")},
     ensures={
-        "fresh_block_token": lambda c: z3.And(c["result"].t >= z3.Int("next_ref0"), _tok(c, "token_type") == TT["BLOCK"]),
+        "block_token": lambda c: _tok(c, "token_type") == TT["BLOCK"],
         "ends_at_the_first_unquoted_end": lambda c: z3.And(
             4 <= _e(c), _e(c) <= z3.Length(c["text"].t), end_at(c["text"].t, _e(c) - 2),
             z3.ForAll([z3.Const("bv_j", I)], z3.Implies(z3.And(2 <= z3.Const("bv_j", I), z3.Const("bv_j", I) < _e(c) - 2), z3.Not(end_at(c["text"].t, z3.Const("bv_j", I)))))),
@@ -257,4 +257,176 @@ def _replay_dtp(model, ob):
         if got != want or not contents_ok:
             return {"confirmed": True, "function": "_detailed_tag_parser", "inputs": {"text": text, "lineno": 1, "start_index": 0},
                     "expected": f"token ends at {want} (first %}} outside quoted strings)", "observed": f"ends at {got}" if got else "TemplateSyntaxError"}
+    return {"confirmed": False, "tried": cands}
+
+
+# =================================================================================================== parse_template
+# Stock lexer (django.template.base.DebugLexer.tokenize, A-DJ): for the substring text[s:e) it returns the stock token
+# records, a function of (text, s, e).  All facts are stated in coordinates of the ORIGINAL text:
+#   nl(i)  = number of newlines in text[:i]                    (spec function; count(text[a:b], "\n") == nl(b) - nl(a))
+TOKS = Seq(TOKEN)
+
+
+def _nl():
+    return z3.Function("newlines_before", I, I)
+
+
+def stock(s, e):
+    return z3.Function("stock_tokens", I, I, TOKS.sort())(s, e)
+
+
+def _split_sub(t, text):
+    """t is text itself or SubString(text, s, l): returns (s, e)."""
+    t = z3.simplify(t)
+    if t.eq(text):
+        return z3.IntVal(0), z3.Length(text)
+    if z3.is_app(t) and t.decl().kind() == z3.Z3_OP_SEQ_EXTRACT and t.arg(0).eq(text):
+        return t.arg(1), z3.simplify(t.arg(1) + t.arg(2))
+    raise EngineError(f"DebugLexer on a string that is not a slice of `text`: {t}")
+
+
+REG.stub("django.template.base.DebugLexer", lambda run, args, kwargs, node: Conc(("obj_kind", "debuglexer", args[0])))
+
+
+def tpos(t, i):
+    return POS.proj(TOKEN.proj(t, "position"), i)
+
+
+def _tokenize(run, obj, args, kwargs, node):
+    text = run.entry_frame.vars["text"].t
+    s, e = _split_sub(obj.obj[2].t, text)
+    T = stock(s, e)
+    n = z3.Length(T)
+    k = z3.FreshConst(I, "k")
+    nl = _nl()
+    rng = z3.And(0 <= k, k < n)
+    facts = [
+        # contiguous, non-empty spans covering [0, e-s); positions are relative to the lexed substring
+        z3.Implies(e > s, z3.And(n >= 1, tpos(T[0], 0) == 0, tpos(T[n - 1], 1) == e - s)),
+        z3.Implies(e <= s, n == 0),
+        z3.ForAll([k], z3.Implies(rng, z3.And(0 <= tpos(T[k], 0), tpos(T[k], 0) < tpos(T[k], 1), tpos(T[k], 1) <= e - s,
+                                              TOKEN.proj(T[k], "lineno") == 1 + nl(s + tpos(T[k], 0)) - nl(s),
+                                              # a BLOCK token starts with the block-tag opener
+                                              z3.Implies(TOKEN.proj(T[k], "token_type") == TT["BLOCK"], z3.SubString(text, s + tpos(T[k], 0), 2) == z3.StringVal("{%")))),
+                  patterns=[T[k]]),
+        z3.ForAll([k], z3.Implies(z3.And(0 <= k, k + 1 < n), tpos(T[k], 1) == tpos(T[k + 1], 0)), patterns=[T[k]]),
+    ]
+    for f in facts:
+        run.pc.append(f)
+        run.solver_add(f)
+    return Val(TOKS, T)
+
+
+REG.stub(("method", "conc:obj_kind:debuglexer", "tokenize"), _tokenize)
+
+
+def _count_newlines_hook(run, obj, args, kwargs, node):
+    """s.count("\\n"): when s is a slice text[a:b] of the unit's `text`, this is nl(b) - nl(a) (definition of nl)."""
+    t = obj.t
+    res = ops.str_count(t, run.coerce(args[0], TStr).t)
+    try:
+        text = run.entry_frame.vars["text"].t
+        a, b = _split_sub(t, text)
+        if z3.simplify(run.coerce(args[0], TStr).t).eq(z3.StringVal("\n")):
+            fact = z3.Implies(z3.And(0 <= a, a <= b, b <= z3.Length(text)), res == _nl()(b) - _nl()(a))
+            run.pc.append(fact)
+            run.solver_add(fact)
+    except (EngineError, KeyError, AttributeError):
+        pass
+    return Val(TInt, res)
+
+
+REG.stub(("method", "Str", "count"), _count_newlines_hook)
+
+
+def _pt_entry(run, fr):
+    nl = _nl()
+    i = z3.FreshConst(I, "i")
+    run.pc.append(nl(0) == 0)
+    run.pc.append(z3.ForAll([i], z3.Implies(i >= 0, nl(i) >= 0), patterns=[nl(i)]))
+
+
+def _resolved_ok(toks, upto_end):
+    """The tokens are contiguous from 0 to `upto_end` and each carries lineno = 1 + newlines before its start."""
+    nl = _nl()
+    k = z3.Const("bv_k", I)
+    n = z3.Length(toks)
+    return z3.And(
+        z3.Implies(n == 0, upto_end == 0),
+        z3.Implies(n > 0, z3.And(tpos(toks[0], 0) == 0, tpos(toks[n - 1], 1) == upto_end)),
+        z3.ForAll([k], z3.Implies(z3.And(0 <= k, k < n), z3.And(0 <= tpos(toks[k], 0), tpos(toks[k], 0) < tpos(toks[k], 1), tpos(toks[k], 1) <= upto_end))),
+        z3.ForAll([k], z3.Implies(z3.And(0 <= k, k < n), TOKEN.proj(toks[k], "lineno") == 1 + nl(tpos(toks[k], 0)))),
+        z3.ForAll([k], z3.Implies(z3.And(0 <= k, k + 1 < n), tpos(toks[k], 1) == tpos(toks[k + 1], 0))),
+    )
+
+
+def _outer_inv(c):
+    text = c["text"].t
+    return z3.And(0 <= c["index_start"].t, c["index_start"].t <= c["index_end"].t, c["index_end"].t == z3.Length(text),
+                  c["lineno_offset"].t == _nl()(c["index_start"].t),
+                  _resolved_ok(c["resolved_tokens"].t, c["index_start"].t))
+
+
+def _inner_inv(c):
+    """After k stock tokens of this run were shifted and appended (none of them a quoted block tag)."""
+    text = c["text"].t
+    s, e = c["index_start"].t, c["index_end"].t
+    k = c["_i1"].t
+    T = stock(s, e)
+    prev_end = z3.If(k == 0, s, s + tpos(T[k - 1], 1))
+    return z3.And(
+        0 <= s, s < e, e == z3.Length(text), c["lineno_offset"].t == _nl()(s), c["_seq1"].t == T,
+        z3.Not(TOpt(TOKEN).is_none(c["broken_token"].t)) == z3.BoolVal(False),
+        _resolved_ok(c["resolved_tokens"].t, prev_end),
+    )
+
+
+REG.contract(
+    f"{MOD}:parse_template", prop="C09", types={"text": Str}, result=TOKS, entry=_pt_entry,
+    locals={"resolved_tokens": TOKS, "broken_token": Opt(TOKEN), "tokens": TOKS},
+    modifies=[], raises={"TemplateSyntaxError": None},
+    loops={0: Loop(inv=[_outer_inv], variant="index_end - index_start"),
+           1: Loop(inv=[_inner_inv], variant="len(_seq1) - _i1")},
+    ensures={
+        # "token spans are contiguous and cover the text exactly ... each token's line number is one plus the number of
+        # newlines before its start"
+        "contiguous_cover_with_right_line_numbers": lambda c: _resolved_ok(c["result"].t, z3.Length(c["text"].t)),
+    },
+)
+
+
+def check_tokens_not_reread():
+    """The by-value treatment of Token needs: inside the `for token in tokens` loop the list `tokens` is not read again."""
+    m = load_module(MOD)
+    fn = m.funcs["parse_template"].node
+    loops = [n for n in ast.walk(fn) if isinstance(n, ast.For) and ast.unparse(n.iter) == "tokens"]
+    if len(loops) != 1:
+        return False, "expected exactly one `for token in tokens` loop"
+    bad = [ast.unparse(n) for st in loops[0].body for n in ast.walk(st) if isinstance(n, ast.Name) and n.id in ("tokens", "lexer")]
+    after = False
+    return (not bad), ("`tokens` / `lexer` are not used inside the loop body" if not bad else f"`tokens`/`lexer` used inside the loop body: {bad}")
+
+
+REG.syntactic_check("syn#tokens_not_reread", "C09", check_tokens_not_reread)
+
+
+@REG.replay(f"{MOD}:parse_template")
+def _replay_pt(model, ob):
+    from django_components.util.template_parser import parse_template
+    t = model.get("in!text", {}).get("str") or ""
+    cands = [t, 'a\n{% x "1" %}\nb\n{% y "2" %}\nc\n{{ v }}', '{% a\n "q"\n %}\n{{ v }}\n{% b "r" %}x', "{{ a }}\n{% b %}"]
+    for text in cands:
+        try:
+            toks = parse_template(text)
+        except Exception as e:
+            continue
+        pos = 0
+        for tk in toks:
+            want_line = 1 + text[:tk.position[0]].count("\n")
+            if tk.position[0] != pos or tk.lineno != want_line:
+                return {"confirmed": True, "function": "parse_template", "inputs": {"text": text},
+                        "expected": f"token at {tk.position} contiguous from {pos} with lineno {want_line}", "observed": f"position {tk.position}, lineno {tk.lineno}"}
+            pos = tk.position[1]
+        if pos != len(text):
+            return {"confirmed": True, "function": "parse_template", "inputs": {"text": text}, "expected": f"cover up to {len(text)}", "observed": f"ends at {pos}"}
     return {"confirmed": False, "tried": cands}
